@@ -1,8 +1,9 @@
 From Coq Require Import Extraction ExtrOcamlBasic ZArith NArith.
-From Elk Require Import Model.C02_Types Model.C02_Classes Model.C02_Iface.
+From Elk Require Import Model.C02_Types Model.C02_Classes Model.C02_Iface Model.C02_IfaceRec.
 Extraction Language OCaml.
 Extraction Blacklist List String Int.  (* keep OCaml Stdlib.List visible to ocaml/common/zio.ml *)
 Separate Extraction subtype mem check_s annot_s exec log_ok check_e eval_e flow_simple init_state
   kmem kannot krun klog_ok resolve static_target sub_cls eval_c narrow_c
+  rsub rcall rtab_ok
   isub hist gmem_b ctab_ok gcall bmem bat ret_atoms csigs imeths cmeths
   Z.to_N N.add Z.of_nat Z.to_nat.
